@@ -29,7 +29,7 @@ FUZZ = {"quick": 3200, "thorough": 160000}  # executions of the coverage-guided 
 SHRINK_SECONDS = {"quick": 30, "thorough": 150}
 RULE = (
     "case = (1-3 modes of drawn statistics, expression tree: word with random parenthesisation (primary) or free tree "
-    "(secondary) over atoms {op, op^dagger, N, polynomial p(N), 1/(N + half-integer), sigma_x/y/z, rationals}). "
+    "(secondary) over atoms {op, op^dagger, N, polynomial p(N), 1/(N + half-integer), sigma_x/y/z, rationals, complex constants, complex polynomials of N}); the arithmetic is evaluated twice: on operands converted with the full operator list and on operands converted separately with their own lists. "
     "Non-trivial = the top product has a right operand with >= 2 ladder-type operators, or a number-dependent "
     "coefficient multiplies unmatched annihilators, or >= 2 statistics are mixed; and the reference matrix is non-zero."
 )
